@@ -246,6 +246,7 @@ type BatchOpts struct {
 	MaxSeries  int
 	Collide    bool // allow (series, ts) collisions with explicit versions (C02)
 	NullOK     bool
+	NoHot      bool
 	FixedTimes []int64
 }
 
@@ -269,7 +270,7 @@ func (m *MeasureModel) GenBatch(tp *simcore.Tape, o BatchOpts, batchNo int) []*M
 	for _, r := range m.Rows {
 		used[fmt.Sprintf("%s@%d", r.Series, r.Ts)] = true
 	}
-	hot := tp.Bool(1, 4) // one hot series with consecutive timestamps (delta/const encodings, block splits)
+	hot := !o.NoHot && tp.Bool(1, 4) // one hot series with consecutive timestamps (delta/const encodings, block splits)
 	var hotKey string
 	var hotTs int64
 	if hot {
